@@ -333,6 +333,20 @@ func rulesC05(c *Ctx) {
 			for _, r := range returnsOf(f) {
 				errv := resolve(r.Results[1])
 				if isNilConst(errv) {
+					// `if out, err = gcm.Open(...); err != nil { return nil, wrapped }; return out, nil`
+					if dx, isDX := resolve(r.Results[0]).(*ssa.Extract); isDX && dx.Index == 0 {
+						if oc, isOC := dx.Tuple.(*ssa.Call); isOC {
+							oi := callInfo(oc, nil, 0)
+							onm := ""
+							if oi.Method != nil {
+								onm = qualObj(oi.Method)
+							}
+							if (strings.HasSuffix(onm, "(AEAD).Open") || strings.HasSuffix(onm, "(Cipher).Decrypt")) && factsFor(f).KnownNil(r.Block(), firstOr(resultN(oc, 1)), true) {
+								n++
+								continue
+							}
+						}
+					}
 					ok, why = false, "Decrypt returns success without an authenticated open (constant nil error)"
 					continue
 				}
@@ -541,6 +555,30 @@ func ruleKeyBinding(c *Ctx, encT *types.Named) {
 	fresh := allOrigins(aos, func(o Origin) bool { return o.Kind == "alloc" || o.Kind == "nil" || o.Kind == "zero" })
 	c.Check(fresh, "R3", "key material is a private buffer", hashStore.Pos(), "built by appending to a nil/fresh slice",
 		"the key material shares its backing store with "+originsString(aos)+" — appending the salt writes into the caller's secret slice, and two filespaces built from one secret corrupt each other's key")
+	// every other place that sets a key field: the very key of another filespace (shared, never written
+	// again) or a fresh buffer - never an append onto another filespace's key material, which rewrites
+	// that filespace's key in place when the capacity allows
+	for _, f := range c.P.PkgFuncs(encPkg) {
+		eachInstr(f, func(_ *ssa.BasicBlock, _ int, in ssa.Instruction) {
+			st, ok := in.(*ssa.Store)
+			if !ok || st == hashStore {
+				return
+			}
+			fa, ok := st.Addr.(*ssa.FieldAddr)
+			if !ok || fieldName(fa) != keyField {
+				return
+			}
+			v := resolve(st.Val)
+			if n, _ := fieldLoadName(v); n != "" && "encryptfs.EncryptFS."+n == keyField {
+				c.OK("R3", "key field set in "+fname(f), st.Pos(), "the parent's key itself (shared, read-only)")
+				return
+			}
+			os2 := Origins(v, FlowOpts{Alias: true, Interproc: 2, Stop: stopAtHostID})
+			fresh2 := allOrigins(os2, func(o Origin) bool { return o.Kind == "alloc" || o.Kind == "nil" || o.Kind == "zero" })
+			c.Check(fresh2, "R3", "key field set in "+fname(f), st.Pos(), "a fresh buffer, or the parent's key unchanged",
+				"the new key shares its backing store with "+originsString(os2)+" and is written to (append/slice of an existing key) — the other filespace's key material is overwritten in place: it can no longer read its own files")
+		})
+	}
 	// child view
 	cf := c.P.Func(encPkg, "EncryptFS", "Filespace")
 	if cf == nil {
